@@ -192,25 +192,125 @@ def _alarm_cancel():
     signal.alarm(0)
 
 
-def _run_block(args):
-    """worker: execute a block of run indices, return compact summaries."""
+def in_fresh_fork(fn, arg, watchdog=600):
+    """run fn(arg) in a child forked from this (warm) process and return its result. Every block of runs
+    starts from the same process state, so a run's outcome is a function of the plans executed before it in
+    its block and nothing else - which makes hidden cross-call state reproducible instead of flaky."""
+    import pickle
+    r, w = os.pipe()
+    pid = os.fork()
+    if pid == 0:
+        code = 0
+        try:
+            os.close(r)
+            signal.signal(signal.SIGALRM, signal.SIG_DFL)
+            faulthandler.register(signal.SIGALRM, all_threads=True, chain=True)
+            signal.alarm(int(watchdog))
+            try:
+                out = ("ok", fn(arg))
+            except BaseException:
+                out = ("err", traceback.format_exc())
+            signal.alarm(0)
+            data = pickle.dumps(out)
+            view = memoryview(data)
+            while view:
+                n = os.write(w, view)
+                view = view[n:]
+        except BaseException:
+            code = 3
+        finally:
+            os._exit(code)
+    os.close(w)
+    chunks = []
+    while True:
+        part = os.read(r, 1 << 20)
+        if not part:
+            break
+        chunks.append(part)
+    os.close(r)
+    _, status = os.waitpid(pid, 0)
+    if not chunks:
+        raise HarnessError("isolated child died without a result (status %d; watchdog %ds)" % (status, watchdog))
+    kind, val = pickle.loads(b"".join(chunks))
+    if kind == "err":
+        raise HarnessError(val)
+    return val
+
+
+def _run_block_inner(args):
     pid, base_seed, tier, indices, want_plans = args
     out = []
     for i in indices:
-        _alarm_guard(int(os.environ.get("VERIF_RUN_WATCHDOG", "300")))
-        try:
-            plan = plan_for(pid, base_seed, i, tier)
-            res = execute_plan(pid, plan)
-            s = res.summary()
-            s["index"] = i
-            if res.violations or i in want_plans:
-                s["plan"] = plan
-            out.append(s)
-        except BaseException:
-            _alarm_cancel()
-            return {"harness_error": "run %d: %s" % (i, traceback.format_exc())}
-    _alarm_cancel()
-    return {"runs": out}
+        plan = plan_for(pid, base_seed, i, tier)
+        res = execute_plan(pid, plan)
+        s = res.summary()
+        s["index"] = i
+        if res.violations or i in want_plans:
+            s["plan"] = plan
+        out.append(s)
+    return out
+
+
+def _run_block(args):
+    """pool worker: execute a block of run indices in a fresh fork, return compact summaries."""
+    try:
+        per_run = int(os.environ.get("VERIF_RUN_WATCHDOG", "300"))
+        return {"runs": in_fresh_fork(_run_block_inner, args, watchdog=per_run + 20 * len(args[3]))}
+    except HarnessError as e:
+        return {"harness_error": "block %s..: %s" % (args[3][:1], e)}
+    except BaseException:
+        return {"harness_error": "block %s..: %s" % (args[3][:1], traceback.format_exc())}
+
+
+def _history_probe_inner(args):
+    pid, prefix, plan = args
+    for p in prefix:
+        execute_plan(pid, p)
+    return execute_plan(pid, plan).digest
+
+
+def history_probe(pid, prefix, plan):
+    """digest of `plan` executed alone vs. after `prefix`, each in its own fresh fork"""
+    alone = in_fresh_fork(_history_probe_inner, (pid, [], plan))
+    after = in_fresh_fork(_history_probe_inner, (pid, prefix, plan))
+    return alone, after
+
+
+def _history_job(args):
+    """pool worker: is the digest mismatch of run `i` a reproducible dependence on the runs executed before it
+    in its block (hidden state between calls), or true nondeterminism? Shrinks the prefix when reproducible."""
+    pid, base_seed, tier, block_indices, i = args
+    plan = plan_for(pid, base_seed, i, tier)
+    prefix_idx = [j for j in block_indices if j < i]
+    prefix = [plan_for(pid, base_seed, j, tier) for j in prefix_idx]
+    a1, b1 = history_probe(pid, prefix, plan)
+    a2, b2 = history_probe(pid, prefix, plan)
+    if a1 != a2 or b1 != b2:
+        return {"kind": "nondeterministic", "index": i, "digests": [a1, a2, b1, b2]}
+    if a1 == b1:
+        return {"kind": "not-reproduced", "index": i, "digests": [a1, b1]}
+    # ddmin over the prefix (which earlier run leaves the state behind?)
+    keep = list(range(len(prefix)))
+    n = 2
+    tests = 0
+    while len(keep) > 1 and tests < 40:
+        size = max(1, len(keep) // n)
+        reduced = False
+        for k in range(0, len(keep), size):
+            cand = keep[:k] + keep[k + size:]
+            if not cand:
+                continue
+            tests += 1
+            a, b = history_probe(pid, [prefix[c] for c in cand], plan)
+            if a != b:
+                keep, reduced = cand, True
+                break
+        if not reduced:
+            if size == 1:
+                break
+            n = min(len(keep), n * 2)
+    return {"kind": "history-dependent", "index": i, "prefix_indices": [prefix_idx[c] for c in keep],
+            "prefix": [prefix[c] for c in keep], "plan": plan, "digests": [a1, b1]}
 
 
 def _worker_init():
@@ -416,7 +516,9 @@ def run_check(pid, tier, base_seed, out=sys.stdout):
 
         # ---- determinism self-test: same seeds again, other worker / other neighbours / fresh interpreter
         n_det = min(n_runs, sizes.get("det", 24))
-        det_idx = sorted(set(int(k * (n_runs - 1) / max(1, n_det - 1)) for k in range(n_det)))
+        # the last run of evenly spaced blocks: it had the longest history of earlier runs in its process
+        n_blocks = (n_runs + block - 1) // block
+        det_idx = sorted(set(min(n_runs - 1, (int(k * (n_blocks - 1) / max(1, n_det - 1)) + 1) * block - 1) for k in range(n_det)))
         again = farm.map_blocks(pid, base_seed, tier, list(reversed(det_idx)), 1, timeout=1500)
         d1 = dict((r["index"], r["digest"]) for r in runs)
         mism = [r["index"] for r in again if d1[r["index"]] != r["digest"]]
@@ -424,8 +526,20 @@ def run_check(pid, tier, base_seed, out=sys.stdout):
         fidx = det_idx[:: max(1, len(det_idx) // fresh_n)][:fresh_n]
         fresh = fresh_digests(pid, base_seed, tier, fidx, hashseed=4242) if fidx else {}
         mism += [int(i) for i, d in fresh.items() if d1[int(i)] != d]
-        det_report = {"seeds_rerun_other_worker": len(det_idx), "seeds_rerun_fresh_interpreter": len(fresh),
-                      "mismatches": sorted(set(mism))}
+        det_report = {"seeds_rerun_isolated_process": len(det_idx), "seeds_rerun_fresh_interpreter": len(fresh),
+                      "mismatches": sorted(set(mism)), "history_dependent": [], "nondeterministic": []}
+
+        # ---- a mismatch is either hidden state carried between calls (reproducible: depends on the runs
+        #      executed earlier in the same block) or true nondeterminism of the harness
+        history_violations = []
+        for i in sorted(set(mism))[:3]:
+            blk = [b for b in (indices[k:k + block] for k in range(0, len(indices), block)) if i in b][0]
+            h = farm.call(_history_job, (pid, base_seed, tier, blk, i), timeout=1500)
+            if h["kind"] == "history-dependent":
+                det_report["history_dependent"].append({"index": i, "after_runs": h["prefix_indices"], "digests": h["digests"]})
+                history_violations.append(h)
+            else:
+                det_report["nondeterministic"].append({"index": i, "kind": h["kind"], "digests": h["digests"]})
 
         # ---- world-level extra stages (conformance against the real pool, ...)
         extra = {}
@@ -449,6 +563,22 @@ def run_check(pid, tier, base_seed, out=sys.stdout):
             else:
                 violations_new.append((v.get("index", -1), v.get("plan"), v))
 
+        hist_is_violation = getattr(w, "HISTORY_DEPENDENCE_IS_VIOLATION", False)
+        for h in history_violations:
+            if not hist_is_violation:
+                continue
+            v = {"kind": "hidden-state", "sig": "%s:result-depends-on-earlier-unrelated-calls-in-the-process" % pid,
+                 "detail": "run %d gives digest %s in a fresh process but %s after runs %s were executed first in the same process "
+                           "(reproducible twice): some library state survives between calls"
+                           % (h["index"], h["digests"][0], h["digests"][1], h["prefix_indices"]),
+                 "stage": "history", "no_shrink": True, "step": -1}
+            e = match_known(known, v["sig"])
+            if e is not None:
+                known_hits.setdefault(v["sig"], [e, 0, v])
+                known_hits[v["sig"]][1] += 1
+            else:
+                violations_new.append((h["index"], {"prefix": h["prefix"], "plan": h["plan"], "steps": None}, v))
+
         # ---- shrink + replay files for new violations (one per distinct signature, first few)
         reported = []
         seen = set()
@@ -465,7 +595,7 @@ def run_check(pid, tier, base_seed, out=sys.stdout):
             path = os.path.join(os.environ.get("VERIF_REPLAY_DIR", os.path.join(VERIF_DIR, "replays")), "%s-%d-%d.json" % (pid, base_seed, idx))
             write_json(path, {"property": pid, "seed": base_seed, "run_index": idx, "run_seed": run_seed(base_seed, pid, idx),
                               "tier": tier, "tree": tree_id(), "shrink_executions": used,
-                              "original_steps": len(plan.get("steps", [])) if plan else None,
+                              "original_steps": len(plan.get("steps") or []) if plan else None,
                               "plan": small, "expect": {"sig": v["sig"], "kind": v["kind"], "detail": v["detail"]},
                               "stage": v.get("stage", "simulation")})
             reported.append((path, v))
@@ -509,17 +639,18 @@ def run_check(pid, tier, base_seed, out=sys.stdout):
     write_json(os.path.join(os.environ.get("VERIF_EVIDENCE_DIR", os.path.join(VERIF_DIR, "evidence")), pid + ".json"), ev)
 
     # ---- verdict
-    if det_report["mismatches"]:
-        print("HARNESS-ERROR property=%s nondeterministic runs %s (same seed, different digest)"
-              % (pid, det_report["mismatches"]), file=out)
-        return EXIT_HARNESS
-    for s, (e, n, v) in sorted(known_hits.items()):
-        print("KNOWN-FINDING: property=%s %s [%s] (%d occurrences this run)" % (pid, e.get("what", s), s, n), file=out)
+    for s_, (e, n, v) in sorted(known_hits.items()):
+        print("KNOWN-FINDING: property=%s %s [%s] (%d occurrences this run)" % (pid, e.get("what", s_), s_, n), file=out)
     if reported:
         for path, v in reported:
             print("violation: %s :: %s" % (v["sig"], v["detail"]), file=out)
             print("VIOLATION property=%s replay=%s" % (pid, path), file=out)
         return EXIT_VIOLATION
+    if det_report["mismatches"]:
+        print("HARNESS-ERROR property=%s runs %s: same seed, different digest (%s)"
+              % (pid, det_report["mismatches"], json.dumps({"history_dependent": det_report["history_dependent"],
+                                                            "nondeterministic": det_report["nondeterministic"]})), file=out)
+        return EXIT_HARNESS
     print("OK property=%s tier=%s seed=%d runs=%d steps=%d distinct=%d wall=%.1fs"
           % (pid, tier, base_seed, n_runs, steps, len(sigs), wall), file=out)
     return EXIT_OK
@@ -530,6 +661,15 @@ def run_replay(pid, path, out=sys.stdout):
         rp = json.load(f)
     w = get_world(pid)
     w.warm()
+    rp["_path"] = path
+    if rp.get("stage") == "history":
+        alone, after = history_probe(pid, rp["plan"]["prefix"], rp["plan"]["plan"])
+        print("replay: digest alone=%s, after %d earlier run(s)=%s" % (alone, len(rp["plan"]["prefix"]), after), file=out)
+        if alone != after:
+            print("VIOLATION property=%s replay=%s" % (pid, path), file=out)
+            return EXIT_VIOLATION
+        print("replay: no dependence on earlier runs on this tree", file=out)
+        return EXIT_OK
     if rp.get("stage", "simulation") != "simulation" and hasattr(w, "replay_stage"):
         return w.replay_stage(rp, out)
     res = execute_plan(pid, rp["plan"], keep_log=True)
@@ -555,6 +695,6 @@ def run_digests(pid, tier, base_seed, indices, out=sys.stdout):
     d = {}
     for i in indices:
         plan = plan_for(pid, base_seed, i, tier)
-        d[str(i)] = execute_plan(pid, plan).digest
+        d[str(i)] = in_fresh_fork(_history_probe_inner, (pid, [], plan))
     print("DIGESTS " + json.dumps(d), file=out)
     return EXIT_OK
